@@ -28,21 +28,31 @@ pub fn yuv(cmd: &Value) -> Value {
     ev
 }
 
-/// {"op":"yuv_sweep","ys":[y0,y1,y2,y3]}: for every (cb, cr) the 4x1 picture
-/// y = ys, cb = [cb, 255-cb], cr = [cr, 255-cr] (the two chroma samples differ, so each half of the
-/// group must use its own); "px"[(cb*256+cr)*4 + k] is pixel k.
+/// {"op":"yuv_sweep","ys":[y0..y(w-1)]}: for every (cb, cr) the w x 1 picture (w = number of luma values, 1..8)
+/// y = ys, chroma sample j = sweep_c(cb, j) / sweep_c(cr, j) (neighbouring chroma samples differ, so each pixel pair
+/// must use its own); "px"[(cb*256+cr)*w + k] is pixel k.  Widths that are not multiples of 4 reach the code that
+/// converts the pixels left over after the last whole group of four.
+fn sweep_c(v: u8, j: usize) -> u8 {
+    let base = if j % 2 == 0 { v as usize } else { 255 - v as usize };
+    ((base + 64 * (j / 2)) % 256) as u8
+}
+
 pub fn yuv_sweep(cmd: &Value) -> Value {
     let mut ev = cmd.clone();
     let ys = bytes(&cmd["ys"]);
+    let w = ys.len();
+    let cw = (w + 1) / 2;
     let r = guarded(|| {
-        let mut px = Vec::with_capacity(65536 * 4);
+        let mut px = Vec::with_capacity(65536 * w);
         let mut lens_ok = true;
         for cb in 0..=255u8 {
             for cr in 0..=255u8 {
-                let out = h263_rs_yuv::bt601::yuv420_to_rgba(&ys, &[cb, 255 - cb], &[cr, 255 - cr], 4);
-                if out.len() != 16 {
+                let cbs: Vec<u8> = (0..cw).map(|j| sweep_c(cb, j)).collect();
+                let crs: Vec<u8> = (0..cw).map(|j| sweep_c(cr, j)).collect();
+                let out = h263_rs_yuv::bt601::yuv420_to_rgba(&ys, &cbs, &crs, w);
+                if out.len() != 4 * w {
                     lens_ok = false;
-                    px.extend_from_slice(&[0, 0, 0, 0]);
+                    px.extend(std::iter::repeat(0).take(w));
                     continue;
                 }
                 for c in out.chunks(4) {
